@@ -14,7 +14,8 @@ CONSTANT Pairs        \* TRUE: singles and pairs; FALSE: singles only
 ConfigMutations == {"build_id", "port_cap", "spec", "drop_entity", "add_entity", "storage_cap", "conn_freq"}
 ArchiveMutations == {"drop_entry", "add_entry", "dup_entry", "nonregular_entry", "empty_build_id", "missing_build_id",
                      "unexpected_path", "truncate_payload", "retype_payload", "unknown_handler", "unknown_event_type",
-                     "unknown_msg_type", "overfill_buffer", "huge_count", "storage_short", "gz_truncated"}
+                     "unknown_msg_type", "overfill_buffer", "huge_count", "storage_short", "gz_truncated",
+                     "huge_entry_size", "entry_size_beyond_data"}
 Mutations == ConfigMutations \cup ArchiveMutations
 
 VARIABLES applied, done
